@@ -154,12 +154,7 @@ SUBS = {'property': sub_property, 'predicate': sub_predicate}
 
 def _alias_topics(m, info):
     """alias -> topic, recovered from the model tree."""
-    out = {}
-    for _role, ev in mast.event_positions(m):
-        for e in mast.simple_events(ev):
-            if e[2] is not None:
-                out[e[2]] = e[1]
-    return out
+    return mast.alias_topics(m)
 
 
 def gen_property(ch, allow_f12=False):
